@@ -192,6 +192,8 @@ def run_check(engine, prop, tier, level="exploration", runs_quick=400, budget_qu
 
 	recs = []
 	violations = []
+	known_early = {}
+	known_runs = [0]
 	harness_errors = []
 	next_idx = 0
 	chunk = chunk or max(1, min(50, max_runs // (workers * 4) or 1))
@@ -227,7 +229,12 @@ def run_check(engine, prop, tier, level="exploration", runs_quick=400, budget_qu
 				for r in out:
 					recs.append(r)
 					if r["violation"]:
-						violations.append(r)
+						k = match_known(known, prop, r["violation"])
+						if k is not None:  # a listed finding: report it, keep exploring
+							known_early[r["violation"].get("signature") or r["violation"]["clause"]] = k
+							known_runs[0] += 1
+						else:
+							violations.append(r)
 			for f, (seeds, ts) in list(pending.items()):
 				if now - ts > 300:
 					harness_errors.append("chunk starting at seed %d exceeded 300 s" % seeds[0])
@@ -263,7 +270,7 @@ def run_check(engine, prop, tier, level="exploration", runs_quick=400, budget_qu
 	# ---- violations: minimise, classify against known findings, write replay files
 	exit_code = 0
 	reported = []
-	known_hit = {}
+	known_hit = dict(known_early)
 	if violations and not harness_errors:
 		violations.sort(key=lambda r: r["seed"])
 		by_clause = {}
@@ -341,6 +348,7 @@ def run_check(engine, prop, tier, level="exploration", runs_quick=400, budget_qu
 			"workers": workers,
 			"real_vs_stub": real_stub or {},
 			"known_findings_hit": sorted(known_hit),
+			"known_finding_runs": known_runs[0],
 			"harness_errors": harness_errors,
 		},
 		"assumptions": list(assumptions),
